@@ -197,7 +197,8 @@ pub fn write_float_scientific<const FORMAT: u128>(
     options: &Options,
 ) -> usize {
     // PRECONDITIONS
-    debug_assert!(bytes.len() >= BUFFER_SIZE);
+    // NOTE: the sign has already been written, `bytes` starts after it.
+    debug_assert!(bytes.len() >= BUFFER_SIZE - 1);
 
     // Config options.
     let format = NumberFormat::<{ FORMAT }> {};
@@ -272,7 +273,8 @@ pub fn write_float_nonscientific<const FORMAT: u128>(
     options: &Options,
 ) -> usize {
     // PRECONDITIONS
-    debug_assert!(bytes.len() >= BUFFER_SIZE);
+    // NOTE: the sign has already been written, `bytes` starts after it.
+    debug_assert!(bytes.len() >= BUFFER_SIZE - 1);
 
     // Config options.
     let format = NumberFormat::<{ FORMAT }> {};
